@@ -762,8 +762,54 @@ def run_case(case):
     got = outcome(t5)
     require(got == base, "%s depends on what the process computed before" % name, plain=describe(base),
             after_history=describe(got), prefix=[p[0] for p in case["prefix"]])
+    # (f) object lifecycle. The arguments of a second data set (same recipe, other seed => same shapes) are used to
+    #   - check that a RETURNED object is not a buffer the library reuses: it must keep its value while the routine
+    #     runs on other data;
+    #   - refill the first call's argument arrays IN PLACE with the second data set and call again on the same
+    #     objects: the result must be that of the new contents (a cache keyed on object identity returns the old one).
+    lifecycle = []
+    if name not in LONG and base[0] == "ok" and isinstance(args, dict) and "seed" in args:
+        args_b = dict(args)
+        args_b["seed"] = int(args["seed"]) ^ 0x5A5A5
+        try:
+            tb, ins_b = build(args_b)
+            ta, ins_a = build(args)
+        except Exception:
+            tb = None
+        if tb is not None:
+            try:
+                obj_a = ta()
+                kept = canon(obj_a)
+                want_b = outcome(tb)
+                require(canon(obj_a) == kept, "a result returned by %s changed when the routine was called again on other "
+                        "data (the returned object aliases a buffer the library reuses)" % name,
+                        first=_desc(kept), now=_desc(canon(obj_a)))
+                lifecycle.append("kept_result")
+                same = (len(ins_a) == len(ins_b) and all(
+                    isinstance(x, np.ndarray) and isinstance(y, np.ndarray) and x.shape == y.shape and x.dtype == y.dtype
+                    and x.flags.writeable and x.dtype != object for x, y in zip(ins_a, ins_b)))
+                if same and ins_a:
+                    # the oracle is a FRESH set of argument objects (same recipe) refilled with the same contents
+                    # before its first call: the only difference is that `ta`'s objects were seen by an earlier call.
+                    t2, ins_2 = build(args)
+                    for x, y in zip(ins_2, ins_b):
+                        x[...] = y
+                    want_b = outcome(t2)
+                    for x, y in zip(ins_a, ins_b):
+                        x[...] = y
+                    got_b = outcome(ta)
+                    require(got_b == want_b, "%s called again on the SAME argument objects after they were refilled in place "
+                            "does not give the result that fresh objects with those contents give" % name,
+                            got=describe(got_b), want=describe(want_b))
+                    lifecycle.append("refilled_in_place")
+                    if got_b != ("ok", kept):
+                        lifecycle.append("refill_changed_result")
+            except Violation:
+                raise
+            except Exception:
+                pass
     nt = bool(sites) or name in THREADED or len(case["prefix"]) >= 2
-    cl = ["routine=" + name, "outcome=" + base[0]] + ["site=" + s for s in sorted(sites)]
+    cl = ["routine=" + name, "outcome=" + base[0]] + ["site=" + s for s in sorted(sites)] + ["lifecycle=" + x for x in lifecycle]
     if base[0] == "exc":
         cl.append("exc=%s:%s" % (name, base[1]))
     return Info(nt, cl)
